@@ -244,7 +244,7 @@ def _readback_signs(prog):
     t, _ = method_term(prog, ev, mm, cls, 'get_current', [A('id')])
     first = t.a if isinstance(t, Cond) else t
     p = as_poly(first) if isinstance(first, (Poly, int)) else None
-    if p is not None and p.single() is not None and '_voltage_source_currents' in repr(p.key()):
+    if p is not None and p.single() is not None and ('_voltage_source_currents' in repr(p.key()) or '_solution_vector' in repr(p.key())):
         s_read = 1 if p.single()[1][0] > 0 else -1
     from . import incidence as INC
     rs = INC.rhs_signs(prog)
